@@ -97,7 +97,11 @@ func (c20) Run(ts *tape.Set, tier Tier) *Result {
 	fragSeed := shape.Raw()
 	switch kind {
 	case 0:
-		spec := gen.DrawFileSpec(shape, gen.FileOpts{MaxSize: 8 << 10, AllowOdd: true})
+		maxSize := 8 << 10
+		if tier == Thorough {
+			maxSize = 48 << 10
+		}
+		spec := gen.DrawFileSpec(shape, gen.FileOpts{MaxSize: maxSize, AllowOdd: true})
 		which := shape.Intn(3)
 		bufSeed := shape.Raw()
 		root, _, err := gen.WriteFile(st, spec)
